@@ -676,10 +676,10 @@ fn gen_part2(thorough: bool, rng: &mut Rng, out: &mut dyn FnMut(String), enum_ki
         let three = format!("G{}.{}.{}:3,{d},2", (d + 1) % 3, rng.next() % 100000, [100, 3, 9][d % 3]);
         for (spec, shape, axes) in [(&two, vec![2, d], vec!["1", "0", "-1"]), (&three, vec![3, d, 2], vec!["1", "-2"])] {
             for (ai, ax) in axes.iter().enumerate() {
-                if ai == 2 && d % 4 != 0 { continue; }
-                if shape.len() == 3 && ai == 1 && d % 2 != 0 { continue; }
+                if ai == 2 && (d % 8 != 0 || !thorough) { continue; }
+                if shape.len() == 3 && ai != d % 2 && !thorough { continue; }
                 emit_all(out, k + ai, ty, spec, ax, false);
-                if model_len(d) && (ai == 0 || d <= 48) {
+                if model_len(d) && (ai == 0 || shape.len() == 3 || d <= 48) && (shape.len() == 2 || d <= 129 || thorough) {
                     let v = gen_values(spec.split(':').next().unwrap(), shape.iter().product()).unwrap();
                     emit_all(out, k + ai, ty, &lane_ty(ty, &shape, &v, 1), ax, true);
                 }
@@ -705,12 +705,12 @@ fn gen_part2(thorough: bool, rng: &mut Rng, out: &mut dyn FnMut(String), enum_ki
     //      on repeats), so long lanes use sort kinds merge / heap / stable and argmax / argmin only up to 5000-element lanes.
     let mut huge: Vec<(Vec<usize>, Vec<&str>)> = vec![
         (vec![16, 32, 40], vec!["2", "-1", "1", "0"]), (vec![4, 8, 16, 40], vec!["3", "1"]), (vec![3, 60, 70], vec!["1", "-2", "0", "2"]),
-        (vec![26, 26, 26], vec!["-1", "0"]), (vec![2, 3, 5, 7, 11, 13], vec!["5", "2"]),
+        (vec![26, 26, 26], vec!["-1", "0"]), (vec![2, 3, 5, 7, 11, 13], vec!["5"]),
         (vec![130, 130], vec!["0", "1"]), (vec![129, 131], vec!["-1"]), (vec![100, 200], vec!["1"]), (vec![2, 8200], vec!["1", "0"]), (vec![8200, 2], vec!["0", "-1"]),
         (vec![16385], vec!["0"]), (vec![33000], vec!["none"]), (vec![2, 70000], vec!["1"]), (vec![70000, 2], vec!["0"]), (vec![40, 30, 30], vec!["2"]),
-        (vec![10, 11, 12, 13], vec!["1"]), (vec![5, 4, 10, 10, 10], vec!["4", "0"]), (vec![300, 300], vec!["1", "0"])];
+        (vec![10, 11, 12, 13], vec!["1"]), (vec![5, 4, 10, 10, 10], vec!["4", "0"]), (vec![300, 300], vec!["1"])];
     if thorough { huge.extend([(vec![70000], vec!["0", "none"]), (vec![140001], vec!["-1"]), (vec![7, 131, 151], vec!["2", "1"]), (vec![1, 66000, 2, 1], vec!["1"]), (vec![3, 5, 7, 11, 13, 2], vec!["4", "-1", "0"]), (vec![100, 200], vec!["0"]),
-        (vec![4, 8, 16, 40], vec!["-1", "-4"]), (vec![26, 26, 26], vec!["1"]), (vec![2, 3, 5, 7, 11, 13], vec!["-1", "0"]), (vec![129, 131], vec!["-2"]), (vec![40, 30, 30], vec!["0"]), (vec![10, 11, 12, 13], vec!["3"]), (vec![5, 4, 10, 10, 10], vec!["2"])]); }
+        (vec![4, 8, 16, 40], vec!["-1", "-4"]), (vec![26, 26, 26], vec!["1"]), (vec![2, 3, 5, 7, 11, 13], vec!["-1", "0", "2"]), (vec![300, 300], vec!["0"]), (vec![129, 131], vec!["-2"]), (vec![40, 30, 30], vec!["0"]), (vec![10, 11, 12, 13], vec!["3"]), (vec![5, 4, 10, 10, 10], vec!["2"])]); }
     for (hi, (s, axes)) in huge.iter().enumerate() {
         let n: usize = s.iter().product();
         for (ai, ax) in axes.iter().enumerate() {
@@ -1128,8 +1128,9 @@ fn exec(op: &str, args: &[&str], expected: &str) -> Option<Verdict> {
         }
     }
     let mine = LAST_RAW.with(|l| l.borrow_mut().take());
-    let size = args.iter().map(|a| a.len()).max().unwrap_or(0);
-    if let (Some(t), true) = (mine, size < 40000) { PREV.with(|p| *p.borrow_mut() = Some((op.to_string(), args.iter().map(|x| x.to_string()).collect(), t))); }
+    // (remembered for the re-run: cases up to 2000 elements — the re-run costs one more call)
+    let elems = args.iter().find_map(|a| { let (l, r) = a.split_once(':')?; let sh = if l.starts_with('G') { r } else { l }; if sh.chars().all(|c| c.is_ascii_digit() || c == ',') && !sh.is_empty() { Some(parse_usize_list(sh).iter().product::<usize>()) } else { None } }).unwrap_or(0);
+    if let (Some(t), true) = (mine, elems <= 2000) { PREV.with(|p| *p.borrow_mut() = Some((op.to_string(), args.iter().map(|x| x.to_string()).collect(), t))); }
     Some(verdict)
 }
 
